@@ -229,6 +229,8 @@ fn build_child(op: &Op, bytes: &[u8], plan: Plan) -> Child {
             args.push("-t".into());
             args.push(threads.to_string());
             let mut plan = plan;
+            // create always writes its spectrum to stdout: short writes and write errors apply
+            plan.output = Some(Target::Stdout);
             if *by_path {
                 args.push("@DIR@/in.dat".into());
                 plan.input = Some(Target::File("in.dat".into()));
